@@ -105,9 +105,9 @@ def diagnose(tr):
         return (len(ev), "jacobian() gives %s, expected %s  %s" % (tr["jac"], [ps[1], 0, 0, ps[1]], tr.get("jac_error", "")))
     if tr.get("hvp"):
         h = 2 * ps[1] * ps[1]
-        if tr["hvp"] != [h, 2 * h, h, 2 * h, h, 2 * h, h, 2 * h]:
+        if tr["hvp"] != [h, 2 * h, h, 2 * h, h, 2 * h, 2 * ps[1] * tr["val"], 2 * ps[1] * tr["val2"]]:
             return (len(ev), "Hessian-vector products of z = sum(F(x)^2) by reverse-over-reverse / forward-over-reverse / reverse-over-forward, and the traced first-order gradient, are %s, "
-                    "each should be (%d, %d)  %s" % (tr["hvp"], h, 2 * h, tr.get("hvp_error", "")))
+                    "the products should be (%d, %d), the gradient (%d, %d)  %s" % (tr["hvp"], h, 2 * h, 2 * ps[1] * tr["val"], 2 * ps[1] * tr["val2"], tr.get("hvp_error", "")))
     return None
 
 
